@@ -953,3 +953,12 @@ Proof.
                 (fun s t s' Es => bulk_step_decreases H mode jobs src fault cc s t s' Es)
                 sched (binit store0 nw) s' E). lia.
 Qed.
+
+(* bulk_complete with the cancelling environment enabled *)
+Theorem bulk_cancel_complete H mode jobs src fault store0 nw sched :
+  store_ok H store0 -> (mode = MCopy -> src_ok H src) ->
+  let s := run (bstep H mode jobs src fault true) sched (binit store0 nw) in
+  bfinal s = true -> bulk_result s = RNil ->
+  forall k, k < njobs jobs ->
+    exists b, lookup (b_store s) (jid H mode jobs k) = Some b /\ H b = jid H mode jobs k.
+Proof. exact (bulk_complete H mode jobs src fault true store0 nw sched). Qed.
